@@ -21,14 +21,24 @@ RULE = ("toy curves: every (c, q, k, lower_s) for signing, every (r, s) in 0..n+
         "backends (libsecp256k1 serving on/off) and the two answers must coincide; non-trivial = not refused at the "
         "first check; distinct = distinct (stream, op line)")
 TRUSTED = [
-    "Btc.EC.ops c is Lawful (the Jacobian arithmetic computes the group law): hypothesis of the theorems, property C01",
+    "Lawful for Btc.EC.ops C is PROVED by C01 (lawful_ec) on the n-torsion carrier for CurveOk curves with p = 3 mod 4; "
+    "CurveOk is instantiated at secp256k1 (kernel evaluation + Pratt certificates for p and n) and a 31-point toy curve "
+    "only: the other catalogued curves and the harness's toy curves are tied by correspondence",
     "HMAC/SHA executables in Lean are validated against hashlib each run, not verified",
-    "modelled, tied by correspondence only: RFC 6979 byte plumbing, DER reader, Sig.assert_valid x-coordinate screen, "
-    "public entry-point glue (argument checks, dispatch to libsecp256k1)",
+    "modelled, tied by correspondence only: RFC 6979 byte plumbing (plus an independent in-harness RFC 6979 oracle), "
+    "DER reader, public entry-point glue (argument checks, dispatch to libsecp256k1, libsecp256k1's own x-coordinate "
+    "test; the Python arm's test isXCoord is proved complete)",
     "points with y = 0 (2-torsion, only on even-order toy curves) are infinity for the GroupOps abstraction as for "
-    "btclib's affine API: cases whose K is such a point are decided by the brute-force SEC 1 oracle only",
+    "btclib's affine API: verification cases whose K is such a point, and recovery candidates lifted from a 2-torsion "
+    "x, are decided by the brute-force SEC 1 oracle only",
 ]
-ASSUMPTIONS = ["n prime (Lawful.n_prime)", "unforgeability is not a theorem"]
+ASSUMPTIONS = [
+    "cofactor one (hcof: the curve has exactly n points) for the E2E statements about ARBITRARY keys; not proved for "
+    "secp256k1 (no point count). Keys built from G need no assumption",
+    "p = 3 (mod 4) on every E2E theorem (Lawful bundles lift_x)",
+    "primality of n for curves other than secp256k1 (secp256k1: proved, Btc.E2E.secp256k1_p_prime/_n_prime)",
+    "unforgeability is not a theorem",
+]
 
 HF = {"sha256": hashlib.sha256, "sha1": hashlib.sha1, "sha512": hashlib.sha512}
 
